@@ -203,8 +203,10 @@ constexpr std::array<typename K::R, K::N> eval_all()
 template <class K>
 concept all_ok = requires { typename std::bool_constant<(eval_all<K>(), true)>; };
 
+// consteval, not constexpr: with a constexpr function g++ 12 -O2 evaluates the initialiser of `table` twice
+// (once speculatively while folding), which doubles compile time and compiler memory of every table
 template <class K>
-constexpr Table<K> make_table()
+consteval Table<K> make_table()
 {
     Table<K> t;
     if constexpr (all_ok<K>) {
@@ -242,6 +244,7 @@ struct KernelOps {
     std::string (*subject)(){nullptr};
     void (*one)(std::size_t, Entry&){nullptr};                              // executes entry i at run time
     void (*text)(std::size_t, std::string*, std::string*, std::string*, std::string*){nullptr}; // show, cls, rt, cx
+    bool (*cxok)(std::size_t){nullptr};                                     // did constant evaluation of entry i succeed?
 };
 
 template <class K>
@@ -272,7 +275,8 @@ struct Thunks {
         if (rt) { *rt = show_val(call_rt<K>(launder(a0))); }
         if (cx) { *cx = show_val(table<K>.v[k]); }
     }
-    static constexpr KernelOps ops{K::N, &K::subject, &one, &text};
+    static bool cxok(std::size_t k) { return table<K>.ok[k]; }
+    static constexpr KernelOps ops{K::N, &K::subject, &one, &text, &cxok};
 };
 
 [[gnu::noinline]] inline void run_kernel_erased(KernelOps const& ops, mc::Reporter& r)
@@ -332,6 +336,11 @@ struct Thunks {
             r.violation(trap == mc::Trap::assert_fired ? "C05" : "C02", subject,
                 trap == mc::Trap::assert_fired ? std::string("handler-on-valid-call") : std::string("rt-") + mc::trap_name(trap) + ":" + cls,
                 show, mc::describe_trap(trap));
+            if (!ops.cxok(k)) { // the compiler rejected this entry too: C13's half of the finding is not lost behind the trap
+                r.count("cx_failures");
+                r.violation("C13", subject, "cx_fails:" + cls, show,
+                    "not a constant expression (the compiler rejects the evaluation); the run-time call ends in " + mc::describe_trap(trap));
+            }
             i = k + 1;
         }
         if (mc::san_hits() != before) {
